@@ -53,6 +53,8 @@ struct Snap {
     /// 0 none, 1 never, 2 after(past), 3 after(future)
     mark: u8,
     id_byte: u8,
+    /// which of two trees the snapshot holds (for delete-unchanged)
+    tree: u8,
 }
 
 #[derive(Clone, Debug, Default)]
@@ -62,6 +64,7 @@ struct Opts {
     keep_tags: Option<&'static str>,
     keep_id: Option<&'static str>,
     keep_none: bool,
+    delete_unchanged: bool,
 }
 
 impl Opts {
@@ -85,6 +88,9 @@ impl Opts {
         if self.keep_none {
             _ = m.insert("keep_none".into(), json!(true));
         }
+        if self.delete_unchanged {
+            _ = m.insert("delete_unchanged".into(), json!(true));
+        }
         Value::Object(m)
     }
     fn from_json(v: &Value) -> Self {
@@ -97,6 +103,7 @@ impl Opts {
         o.keep_tags = v["keep_tags"].as_str().map(|s| if s == "foo" { "foo" } else { "foo,bar" });
         o.keep_id = v["keep_id"].as_str().map(|s| if s == "aa" { "aa" } else { "ff" });
         o.keep_none = v["keep_none"].as_bool().unwrap_or(false);
+        o.delete_unchanged = v["delete_unchanged"].as_bool().unwrap_or(false);
         o
     }
     fn sig(&self) -> String {
@@ -148,6 +155,7 @@ impl Opts {
             k.keep_ids = vec![i.to_string()];
         }
         k.keep_none = self.keep_none;
+        k.delete_unchanged = self.delete_unchanged;
         k
     }
 }
@@ -176,6 +184,7 @@ fn mk_snapshot(s: &Snap, z: usize) -> SnapshotFile {
     }
     let idhex = format!("{:02x}", s.id_byte).repeat(32);
     sn.id = idhex.parse().unwrap();
+    sn.tree = format!("{:02x}", 0xe0 + s.tree).repeat(32).parse().unwrap();
     sn.delete = match s.mark {
         1 => DeleteOption::Never,
         2 => DeleteOption::After(now().saturating_sub(Span::new().days(1))),
@@ -236,6 +245,11 @@ fn reference(snaps: &[SnapshotFile], o: &Opts, now: &Zoned) -> Vec<bool> {
                 continue;
             }
             DeleteOption::NotSet => {}
+        }
+        // an unmarked snapshot holding the same tree as the next older one goes, if asked for
+        if o.delete_unchanged && order.get(pos + 1).is_some_and(|&j| snaps[j].tree == sn.tree) {
+            keep[i] = false;
+            continue;
         }
         let mut k = false;
         if let Some(idp) = o.keep_id {
@@ -320,7 +334,7 @@ fn run_case(snaps: &[Snap], z: usize, o: &Opts) -> Result<(), String> {
 fn case_json(snaps: &[Snap], z: usize, o: &Opts) -> Value {
     json!({
         "zone": z,
-        "snaps": snaps.iter().map(|s| json!({"inst": s.inst, "time": INSTANTS[s.inst], "tags": s.tags, "mark": s.mark, "id": s.id_byte})).collect::<Vec<_>>(),
+        "snaps": snaps.iter().map(|s| json!({"inst": s.inst, "time": INSTANTS[s.inst], "tags": s.tags, "mark": s.mark, "id": s.id_byte, "tree": s.tree})).collect::<Vec<_>>(),
         "opts": o.to_json(),
     })
 }
@@ -395,7 +409,7 @@ fn option_vectors(thorough: bool) -> Vec<Opts> {
 }
 
 pub fn run(args: &Args, rep: &mut Report) {
-    rep.set_meta("rule", json!("every sub-multiset (size<=k) of 16 boundary-dense instants x 3 zones x option vectors (each counter in {-1,0,1,2,3}, each within in 6 spans, pairs), plus tag/id/delete-mark slices; a case is non-trivial when the reference keeps some but not all snapshots; distinct = distinct (decision vector, option, multiset) triples"));
+    rep.set_meta("rule", json!("every sub-multiset (size<=k) of 16 boundary-dense instants x 3 zones x option vectors (each counter in {-1,0,1,2,3}, each within in 6 spans, pairs), plus tag/id/delete-mark slices and a delete-unchanged slice (two trees x four marks per snapshot); a case is non-trivial when the reference keeps some but not all snapshots; distinct = distinct (decision vector, option, multiset) triples"));
     if let Some(p) = &args.replay {
         let v: Value = serde_json::from_str(&std::fs::read_to_string(p).unwrap()).unwrap();
         let c = &v["case"];
@@ -413,6 +427,7 @@ pub fn run(args: &Args, rep: &mut Report) {
                 },
                 mark: s["mark"].as_u64().unwrap_or(0) as u8,
                 id_byte: s["id"].as_u64().unwrap_or(0) as u8,
+                tree: s["tree"].as_u64().unwrap_or(0) as u8,
             })
             .collect();
         let o = Opts::from_json(&c["opts"]);
@@ -441,7 +456,7 @@ pub fn run(args: &Args, rep: &mut Report) {
         }
         let snaps: Vec<Snap> = set
             .iter()
-            .map(|&i| Snap { inst: i, tags: "", mark: 0, id_byte: i as u8 })
+            .map(|&i| Snap { inst: i, tags: "", mark: 0, id_byte: i as u8, tree: i as u8 })
             .collect();
         for z in 0..3 {
             let files: Vec<SnapshotFile> = snaps.iter().map(|s| mk_snapshot(s, z)).collect();
@@ -528,6 +543,7 @@ pub fn run(args: &Args, rep: &mut Report) {
                         tags: tag_choices[a % 4],
                         mark: (a / 4) as u8,
                         id_byte: if p == 0 { 0xaa } else { 0x10 + p as u8 },
+                        tree: p as u8,
                     }
                 })
                 .collect();
@@ -547,6 +563,58 @@ pub fn run(args: &Args, rep: &mut Report) {
                 }
                 if let Err(m) = run_case(&snaps, 0, o) {
                     rep.violation(format!("C09/attrs/{}", o.sig()), m, case_json(&snaps, 0, o));
+                }
+            }
+        }
+    }
+    // delete-unchanged: every assignment of {two trees} x {four marks} to <= 3 (quick) / 4 snapshots
+    // at distinct instants, under delete_unchanged with a few rule vectors
+    let mut optsu: Vec<Opts> = Vec::new();
+    for (r, c) in [(0usize, 1i32), (0, -1), (3, 1), (8, 2)] {
+        let mut o = Opts::default();
+        o.counters[r] = Some(c);
+        o.delete_unchanged = true;
+        optsu.push(o);
+    }
+    {
+        let mut o = Opts::default();
+        o.keep_none = true;
+        o.delete_unchanged = true;
+        optsu.push(o);
+    }
+    let nmax = if args.quick() { 3 } else { 4 };
+    for n in 1..=nmax {
+        // instants: the n newest-first spread over days (indices chosen to be distinct)
+        let insts: Vec<usize> = (0..n).map(|p| p * (INSTANTS.len() - 1) / nmax).collect();
+        for code in 0..8usize.pow(n as u32) {
+            idx += 1;
+            if !args.mine(idx) {
+                continue;
+            }
+            let mut c = code;
+            let snaps: Vec<Snap> = insts
+                .iter()
+                .enumerate()
+                .map(|(p, &i)| {
+                    let a = c % 8;
+                    c /= 8;
+                    Snap { inst: i, tags: "", mark: (a / 2) as u8, id_byte: 0x20 + p as u8, tree: (a % 2) as u8 }
+                })
+                .collect();
+            let files: Vec<SnapshotFile> = snaps.iter().map(|s| mk_snapshot(s, 0)).collect();
+            for o in &optsu {
+                rep.inc("cases");
+                rep.inc("cases_delete_unchanged");
+                let expect = reference(&files, o, &now);
+                let kept = expect.iter().filter(|x| **x).count();
+                if kept > 0 && kept < expect.len() {
+                    _ = rep.distinct("nontrivial", &(&insts, code, o.sig(), &expect, "unchanged"));
+                }
+                if let Err(m) = run_case(&snaps, 0, o) {
+                    let sig = format!("C09/delete-unchanged/{}", o.sig());
+                    if !rep.has_violation(&sig) {
+                        rep.violation(sig, m, case_json(&snaps, 0, o));
+                    }
                 }
             }
         }
